@@ -175,7 +175,7 @@ def parse_type(t):
 
 def sort_of(t):
     base, _, _ = parse_type(t)
-    return {"int": I, "bool": B, "real": R, "enum": I, "ref": I, "list": I, "tok": I, "?": I}[base]
+    return {"int": I, "bool": B, "real": R, "enum": I, "ref": I, "list": I, "tok": I, "?": I, "dict": I}[base]
 
 
 def wrap(term, t, none=None):
@@ -288,9 +288,35 @@ class DictObj(Val):
         return "Dict{" + ", ".join(self.entries) + "}"
 
 
+def _has_ite(t):
+    """would z3 reject this term as a pattern (select over a store rewrites to an if-then-else)?"""
+    try:
+        terms = t.children() if z3.is_app(t) and t.decl().name() == "pattern" else [t]
+    except Exception:
+        terms = [t]
+    stack = []
+    for x in terms:
+        try:
+            stack.append(z3.simplify(x))
+        except Exception:
+            stack.append(x)
+    seen = set()
+    while stack:
+        x = stack.pop()
+        if x.get_id() in seen:
+            continue
+        seen.add(x.get_id())
+        if z3.is_app_of(x, z3.Z3_OP_ITE) or z3.is_app_of(x, z3.Z3_OP_STORE):
+            return True
+        stack.extend(x.children())
+    return False
+
+
 def safe_forall(vs, body, patterns=None):
     """z3.ForAll with the given patterns if z3 accepts them (a select over a store chain may be rewritten to an ite,
     which is not allowed in patterns), with inferred patterns otherwise"""
+    if patterns:
+        patterns = [p_ for p_ in patterns if not _has_ite(p_)]
     if patterns:
         try:
             return z3.ForAll(vs, body, patterns=patterns)
